@@ -95,6 +95,7 @@ SPECIFIC = {
     "C10": ["timesim"],
     "C13": ["twins-cancel"],
     "C15": ["twins-fragment", "twins-stall", "readersim"],
+    "C17": ["arenasim"],
     # property -> extra groups (generated by tools/gen_*.py, registered in GENERATORS below)
 }
 
@@ -251,6 +252,20 @@ def gen_readersim(tier, seed, outdir, mqv, root):
               open(os.path.join(outdir, "meta.json"), "w"))
 
 
+ARENASIM = {"quick": ([256, 96], 120, 50), "thorough": ([64, 96, 160, 256, 512, 1152], 1500, 90)}
+
+
+def gen_arenasim(tier, seed, outdir, mqv, root):
+    import replay_arena
+    caps, num, depth = ARENASIM[tier]
+    samples, drift = [], []
+    for cap in caps:
+        trace, bad, n, steps = replay_arena.run(seed, num, depth, outdir, mqv, cap)
+        drift += [{"cfg": "Arena CAP=%d" % cap, "behaviour": i, "mismatch": mm[:2]} for i, mm in bad[:10]]
+        samples.append({"group": "arenasim", "arena_bytes": cap, "behaviours": n, "steps_replayed": steps, "nonconformant": len(bad)})
+    json.dump({"tool_errors": [], "drift": drift, "samples": samples}, open(os.path.join(outdir, "meta.json"), "w"))
+
+
 def gen_twins(kind):
     def gen(tier, seed, outdir, mqv, root):
         n = TWINS[tier]
@@ -260,7 +275,7 @@ def gen_twins(kind):
     return gen
 
 
-GENERATORS = {"readersim": gen_readersim, "timesim": gen_timesim, "vectors": gen_vectors, "twins-stall": gen_twins("stall"), "twins-cancel": gen_twins("cancel"), "twins-fragment": gen_twins("fragment"), "common": gen_common, "witness": gen_witness, "cover": gen_cover, "sim": gen_sim}
+GENERATORS = {"arenasim": gen_arenasim, "readersim": gen_readersim, "timesim": gen_timesim, "vectors": gen_vectors, "twins-stall": gen_twins("stall"), "twins-cancel": gen_twins("cancel"), "twins-fragment": gen_twins("fragment"), "common": gen_common, "witness": gen_witness, "cover": gen_cover, "sim": gen_sim}
 
 
 def generate(group, tier, seed, outdir, mqv, root):
